@@ -146,6 +146,20 @@ PROPS.update({
  },
 })
 
+
+PROPS.update({
+ "C19": {
+  "level": "fault_enumeration", "design_ref": "DESIGN.md §5 P-C19",
+  "technique": "deterministic simulation of bin/newpolicy.sh as real bash processes: a BASH_ENV DEBUG-trap tracer parks the unmodified script before every simple command; a single-threaded orchestrator releases one process at a time, kills the process group before any chosen command (kill -9 at every simple command of a run), interleaves 2-3 simultaneous invocations step by step, and checks invariants on policies/ between any two commands; bounded liveness after faults stop",
+  "level_text": "Histories of good/bad commits (with or without author e-mail, so the revert path runs) against a real bare git origin; kill points are enumerated over every simple command of the reference run (thorough: all, quick: every 6th); invariants: 'current' absent or a directory produced by a successful compile, numbers strictly increasing, no non-compiling revision current, at most one invocation in the critical section; then one undisturbed run must make the newest compiling revision current within 400 steps.",
+  "level_note": "Real bash, git, flock, get-netspoc-approve-conf; stub netspoc (succeeds iff no file BAD) and mail. External commands are atomic for the scheduler.",
+  "rule": "evaluations = disturbed runs (kills or multi-invocation schedules); non-trivial = each generated history; distinct = hash of the event log",
+  "quick": B(32, 80), "thorough": B(2000, 1500),
+  "real": ["bin/newpolicy.sh (unmodified, traced)", "bash", "git", "flock", "cmd/get-netspoc-approve-conf (built from the tree)"],
+  "stubs": ["netspoc (compiler)", "mail"], "assumptions": ["kill -9 of the process group models a crash between two simple commands; a crash inside an external command (git, mv) is not modelled"], "min_nontrivial": 8,
+ },
+})
+
 # Properties without a registered check: id -> reason.
 NOT_CLAIMED = {
 }
